@@ -40,7 +40,7 @@ def inv_beta_suffstats(lnX, ln1X):
     for i in range(5):
         f = grad_betaln(ab) - lnXs
         jac = jac_grad_betaln(ab)
-        ab += np.linalg.solve(jac, - f)
+        ab += np.linalg.solve(jac, - f[..., None])[..., 0]
 
     if np.any(ab < 0):
         warnings.warn(
